@@ -13,6 +13,7 @@
   Only property theorems live here; helper lemmas are in Proofs/TimeDomain.lean.
 -/
 import Lcapy.Proofs.TimeDomain
+import Lcapy.Proofs.TimeDomainAnchor
 import Lcapy.Props.C01
 import Lcapy.Props.C09
 import Lcapy.Props.C10
@@ -217,6 +218,29 @@ theorem ic_start_inductor (x : Ix → Signal K) (n1 n2 m : Nat) (l : K) (i0 : Op
   · exact absurd h hl
   · exact sub_eq_zero.mp h
 
+/-- **ic_start_flux**: coupled inductors.  If `v = L·D i + Σ M·D i'` holds formally, the currents are impulse-free and
+    the inductor's voltage has no impulse at the origin, then the flux linkage `L·i + Σ M·i'` at 0⁺ equals its value at
+    0⁻ (computed from `i0` and the partners' `i0'`):  `L·(i(0⁺) − i0) + Σ M·(i'(0⁺) − i0') = 0`.
+    (An individual coupled current may jump when a partner's voltage carries an impulse; the flux may not.) -/
+theorem ic_start_flux (x : Ix → Signal K) (n1 n2 m : Nat) (l : K) (i0 : Option K) (coup : List (Nat × K × Option K))
+    (w : Signal K)
+    (hlaw : ∀ p ∈ lawsT x (.Ind n1 n2 m l i0 coup, w), FormalZero p.2)
+    (hi : NoDelta (x (.br m)).post) (hc : ∀ p ∈ coup, NoDelta (x (.br p.1)).post)
+    (hv : impulse0 (vpost x n1 n2) = 0) :
+    l * (val0plus (x (.br m)).post - stateOf i0 (pre0 (x (.br m)).pre)) +
+      lsum (coup.map (fun p => p.2.1 * (val0plus (x (.br p.1)).post - stateOf p.2.2 (pre0 (x (.br p.1)).pre)))) = 0 := by
+  have hz := hlaw (m, subP (vpost x n1 n2)
+      (smul l (stateDeriv (stateOf i0 (pre0 (x (.br m)).pre)) (x (.br m)).post) ++ mutualDropT x coup))
+    (List.mem_singleton.mpr rfl)
+  simp only at hz
+  have h0 := coefOf_of_formalZero hz (.dl 0 0 0)
+  rw [coefOf_subP, coefOf_append, coefOf_smul] at h0
+  have h1 := impulse0_stateDeriv (stateOf i0 (pre0 (x (.br m)).pre)) (x (.br m)).post hi
+  have h2 := impulse0_mutualDropT x coup hc
+  simp only [impulse0] at h1 h2 hv
+  rw [h1, h2, hv] at h0
+  linear_combination -h0
+
 /-- **continuity_partial**: `ic_start` read for a whole-axis solution (no initial condition in the netlist): the
     capacitor voltage is continuous across t = 0.  PARTIAL: the hypothesis is the formal law; from the transform-level
     `LawsT` the same conclusion needs injectivity of `L` (stated as the hypothesis `hinj`). -/
@@ -278,6 +302,20 @@ theorem causal_response (pfs : Ix → List (PF K)) (hT : ∀ ix, ∀ pf ∈ pfs 
   exact ⟨hc, fun t ht => C10.causal_zero_before E _ hc t ht⟩
 
 end ordered
+
+/-! ### anchor: the formal derivative is the classical one -/
+
+/-- **deriv_is_classical**: with the real exponential, at every instant that is not a switching instant of the signal
+    (the delays of its terms), the pointwise value of the formal derivative is the derivative of the pointwise value. -/
+theorem deriv_is_classical (f : ExpPoly ℝ) (t : ℝ) (h : ∀ y ∈ f, t ≠ y.delayOf) :
+    HasDerivAt (fun τ => evalAt Real.exp f τ) (evalAt Real.exp (Laplace.deriv f) t) t := evalAt_hasDerivAt f t h
+
+/-- **cap_ode_real**: consequently a capacitor whose law holds formally obeys the ODE `i(t) = C·dv/dt` in the classical
+    sense at every instant t that is not a switching instant of its voltage (for an undelayed response: every t ≠ 0). -/
+theorem cap_ode_real (x : Ix → Signal ℝ) (n1 n2 : Nat) (c : ℝ) (v0 : Option ℝ) (i : ExpPoly ℝ)
+    (hlaw : FormalZero (subP i (capCurrentT x n1 n2 c v0))) (t : ℝ) (h : ∀ y ∈ vpost x n1 n2, t ≠ y.delayOf) :
+    ∃ v' : ℝ, HasDerivAt (fun τ => evalAt Real.exp (vpost x n1 n2) τ) v' t ∧ evalAt Real.exp i t = c * v' :=
+  ⟨_, deriv_is_classical _ t h, cap_pointwise Real.exp x n1 n2 c v0 i hlaw t⟩
 
 /-! ### non-vacuity: a concrete circuit, its exact response, every hypothesis used above -/
 
